@@ -18,7 +18,7 @@ PROFILE = {'weights': {'alloc_put': 22, 'alloc_post': 14, 'reshape': 10, 'inv_se
 RACES = {'n_rps': 2, 'setup_ops': 16, 'existing_consumer_bias': 0.5, 'model': False,
          'setup_weights': {'rp_delete': 0, 'alloc_put': 25, 'alloc_delete': 1, 'rc_rename': 0, 'rc_delete': 0, 'trait_delete': 0,
                            'rp_update': 0},
-         'race_kinds': {'alloc_put': 8, 'alloc_post': 3, 'inv_set': 3, 'inv_update': 2, 'reshape': 1},
+         'race_kinds': {'alloc_put': 8, 'alloc_post': 3, 'inv_set': 3, 'inv_update': 2, 'reshape': 1, 'aggs_set': 3, 'rp_traits_set': 2},
          'p_three': 0.0}
 
 
